@@ -448,3 +448,81 @@ func valueCases(v ssa.Value, depth int) []valueCase {
 	}
 	return []valueCase{{v, nil}}
 }
+
+// funcValueTarget: the function of the analysed package a function value denotes: a named function, a function literal,
+// or the method behind a bound-method value (x.m).
+func funcValueTarget(v ssa.Value) *ssa.Function {
+	switch x := stripConv(v).(type) {
+	case *ssa.Function:
+		return x
+	case *ssa.MakeClosure:
+		f, ok := x.Fn.(*ssa.Function)
+		if !ok {
+			return nil
+		}
+		if f.Synthetic != "" && len(f.Blocks) > 0 {
+			// bound method wrapper: its body calls the method
+			var target *ssa.Function
+			allInstrsLocal(f, func(in ssa.Instruction) {
+				if ci, ok := in.(ssa.CallInstruction); ok {
+					if g := staticCallee(ci); g != nil {
+						target = g
+					}
+				}
+			})
+			return target
+		}
+		return f
+	}
+	return nil
+}
+
+// usesOfFuncValue: the calls of the analysed package that receive fn (as a literal, named function or bound method) as argument.
+func (w *World) usesOfFuncValue(fn *ssa.Function) []*ssa.Call {
+	var out []*ssa.Call
+	for _, g := range w.Funcs {
+		if isGenericTemplate(g) {
+			continue
+		}
+		allInstrsLocal(g, func(in ssa.Instruction) {
+			call, ok := in.(*ssa.Call)
+			if !ok {
+				return
+			}
+			for _, a := range call.Call.Args {
+				if t := funcValueTarget(a); t != nil && (t == fn || w.sameFn(t, fn)) {
+					out = append(out, call)
+				}
+			}
+		})
+	}
+	return out
+}
+
+// altEdges: the alternatives of a merged value: the edges of a phi, or the values a private helper can return when v is
+// (an Extract of) its call. ok == false when v is neither.
+func altEdges(v ssa.Value) ([]ssa.Value, bool) {
+	switch x := v.(type) {
+	case *ssa.Phi:
+		return x.Edges, true
+	case *ssa.Extract, *ssa.Call:
+		var call *ssa.Call
+		if ex, isEx := x.(*ssa.Extract); isEx {
+			call, _ = ex.Tuple.(*ssa.Call)
+		} else {
+			call = x.(*ssa.Call)
+		}
+		if call == nil || crossWorld == nil {
+			return nil, false
+		}
+		f := staticCallee(call)
+		if f == nil || !crossWorld.isPrivateHelper(f) {
+			return nil, false
+		}
+		leaves, _, ok := returnLeavesOfCall(v)
+		if ok && len(leaves) > 0 {
+			return leaves, true
+		}
+	}
+	return nil, false
+}
